@@ -86,13 +86,20 @@ Inductive sr_out :=
 Definition max64 : N := 18446744073709551615%N.
 Definition dec64 (d : N) : N := if N.eqb d 0 then max64 else N.pred d.
 
+(* a framing element that ends the input of a WebSocket stream: <close/>, and
+   (table read from the source) only as a top-level element; every other framing
+   element on an established stream is an unexpected restart *)
+Definition ws_ends (depth : N) (local : bytes) : bool :=
+  in_list local sv_ws_eof_locals && (negb sv_ws_eof_top_only || N.eqb depth 0).
+
 Definition sr_classify (ws : bool) (depth : N) (t : token) : sr_out * N :=
   match t with
   | TChar b =>
       if N.eqb depth 0 && negb (is_ws b) then (SOErr (Some t) EChardata, depth) else (SOTok t, depth)
   | TStart n _ =>
       let d := N.succ depth in
-      if ws && bytes_eqb (nspace n) sv_ns_framing then (SOErr None ERestart, d)
+      if ws && bytes_eqb (nspace n) sv_ns_framing
+      then (SOErr None (if ws_ends depth (nlocal n) then EEOF else ERestart), d)
       else if negb (bytes_eqb (nspace n) sv_ns_stream) then (SOTok t, d)
       else if bytes_eqb (nlocal n) s_error then (SODecode, d)
       else if bytes_eqb (nlocal n) s_stream then (SOErr None ERestart, d)
@@ -478,13 +485,27 @@ Definition in_token (ws : bool) (s : rst) : rres * rst :=
   | _, _ => (r, s')
   end.
 
+(* earlyCloser over it (the reader handed to a waiter keeps its first error, as
+   the handler's does) *)
+Definition wt_token (ws : bool) (s : rst) : rres * rst :=
+  match r_ecerr s with
+  | Some e => ((None, Some e), s)
+  | None =>
+      let '(r, s1) := in_token ws s in
+      match snd r with
+      | Some EEOF => (r, mkr (r_p s1) true (r_idepth s1) (r_count s1) None)
+      | Some e => (r, mkr (r_p s1) (r_closed s1) (r_idepth s1) (r_count s1) (Some e))
+      | None => (r, s1)
+      end
+  end.
+
 (* xmlstream.Wrap(inner, start) = MultiReader(Token(start), inner, Token(start.End())):
    phase 0 before the start tag, 1 inside, 2 after the end tag. The end tag comes
    together with io.EOF (the last reader of a MultiReader). *)
 Definition wr_token (ws : bool) (n : name) (a' : list attr) (ph : nat) (s : rst) : rres * nat * rst :=
   match ph with
   | 0 => ((Some (TStart n a'), None), 1, s)
-  | 1 => let '(r, s1) := in_token ws s in
+  | 1 => let '(r, s1) := wt_token ws s in
          match r with
          | (None, Some EEOF) => ((Some (TEnd n), Some EEOF), 2, s1)
          | _ => (r, 1, s1)
@@ -506,7 +527,7 @@ Fixpoint drain_in (ws : bool) (fuel : nat) (s : rst) : option err * rst :=
   match fuel with
   | O => (Some EFuel, s)
   | S f =>
-      let '(r, s') := in_token ws s in
+      let '(r, s') := wt_token ws s in
       match snd r with
       | Some EEOF => (None, s')
       | Some e => (Some e, s')
@@ -693,13 +714,22 @@ Fixpoint view (k : nat) (pre : list token) (term : err) : list rres :=
             end
   end.
 
+(* the same between two elements: there the peer's <close/> on a WebSocket
+   stream reads as the end of the input, like </stream:stream> *)
+Definition top_dirty_err (ws : bool) (t : token) (rest : list token) : err :=
+  match t with
+  | TStart n _ => if ws && bytes_eqb (nspace n) sv_ns_framing && in_list (nlocal n) sv_ws_eof_locals then EEOF
+                  else dirty_err ws t rest
+  | _ => dirty_err ws t rest
+  end.
+
 (* the error with which the serve loop ends when [l] is what it reads next
    between two elements (None: it goes on with an element or a keep-alive) *)
 Definition top_err (ws : bool) (l : list token) : option err :=
   match l with
   | [] => Some EDecode
   | TChar b :: _ => if is_ws b then None else Some EChardata
-  | TStart n a :: r => if clean ws (TStart n a) then None else Some (dirty_err ws (TStart n a) r)
+  | TStart n a :: r => if clean ws (TStart n a) then None else Some (top_dirty_err ws (TStart n a) r)
   | TEnd n :: r => if clean ws (TEnd n) then Some EBadState else Some (dirty_err ws (TEnd n) r)
   | TMisc k b :: r => Some (dirty_err ws (TMisc k b) r)
   end.
